@@ -34,7 +34,32 @@ _LAYOUTS = []     # the definitions are read once per process
 
 def offending_texts(rng):
     return ["A", "ACGT", "-", "T", "0", "1", "17", "N", "acgt", "x", " ", "None", "Null", "-1", "1.5", "A;C",
-            "TTTTTTTTTTTTTTTT", str(rng.randrange(2, 10**6))]
+            "TTTTTTTTTTTTTTTT", "ACGTACGTAC", str(rng.randrange(2, 10**6))]
+
+
+def prime_other_layouts(col, text):
+    """History (round 8): the same text is first built and validated under the class every OTHER layout gives this column
+    (the protected / basic twin: same class __name__, no null requirement), in this process - a verdict remembered per
+    class name or per text must not reach the masked class.  Nothing is judged here."""
+    try:
+        from maflib.scheme_factory import all_schemes
+        seen = set()
+        for sch_cls in all_schemes():
+            try:
+                cls = sch_cls().column_class(col)
+            except Exception:  # noqa
+                continue
+            if cls is None or id(cls) in seen:
+                continue
+            seen.add(id(cls))
+            try:
+                c = cls.build(col, text)
+                c.validate()
+                str(c)
+            except Exception:  # noqa
+                pass
+    except Exception:  # noqa
+        pass
 
 
 def eval_parse(ann, col, text, mode, line):
@@ -129,6 +154,9 @@ def parse_cases(ctx, out):
                 for mode in MODES:
                     out.evaluations += 1
                     reqs.append(colcases.from_line_req(ann, line, mode, 5))
+                    if rng.random() < 0.5:
+                        prime_other_layouts(col, text)
+                        out.distribution["parse after the same text was validated under the other layouts' classes"] += 1
                     e = eval_parse(ann, col, text, mode, line)
                     out.failures += e["failures"]
                     if not e["counted"]:
